@@ -145,7 +145,17 @@ pub fn connect_and_run_v(w: &mut World, spec: ConnectSpec, connack: &rc::Connack
         // production path: no session is resumed)
         plan.install(w);
         w.tick();
-        if !w.start_connect(ConnectSpec::default()) {
+        // the earlier CONNECT announced tiny client-side limits; none of them concerns the
+        // connection under test, whose CONNECT says something else (or nothing)
+        let earlier = ConnectSpec {
+            receive_maximum: Some(1),
+            maximum_packet_size: Some(64),
+            topic_alias_maximum: Some(1),
+            keep_alive: Some(1),
+            session_expiry: Some(7),
+            ..Default::default()
+        };
+        if !w.start_connect(earlier) {
             return Err("harness: context not idle".into());
         }
         settle(w, plan, false);
